@@ -501,6 +501,8 @@ var prDedicated = []string{
 	// a here-document line that continues with a multi-line substitution / arithmetic command
 	"cat <<E; echo $(\n\ta\n)\nbody\nE\n", "cat <<E | tee `\n\ta\n`\nbody\nE\n", "cat <<E $(\n\ta\n)\nbody\nE\n", "x=$(\n\ta\n) cat <<E\nbody\nE\n",
 	"cat <<E; ((\n1\n))\nbody\nE\n", "cat <<E; echo $((\n1\n))\nbody\nE\n", "cat <<E $((\n1 +\n2))\nbody\nE\n",
+	// after a redirection the next word is an ordinary command name, even if it spells a reserved word
+	">f if\n", ">f ! a\n", "<f { a\n", ">f for\n", "2>&1 while x\n", ">f case\n", "<<E done\nbody\nE\n", ">f then b | >g fi\n", "x=1 >f do\n", ">f x=1 }\n",
 	// delimiters and patterns that need care when they are written back
 	"cat << -E\nx\n-E\n", "cat <<- -E\n\tx\n\t-E\n", "case x in (esac) a;; esac\n", "case x in (esac|b) a;; (c) ;; esac\n", "case esac in (a) b;; esac\n",
 	"a <<E\n$(b <<F\nx\nF\n)\nE\n", "{ a <<E\n$((\n1))\nE\n}\n", "echo $(a\nb) $(\nc\n)\n",
